@@ -12,7 +12,7 @@ from ..refpgp import wire, keys as rkeys, sig as rsig, grammar
 RULE = ('(a) all 2048 SecurityIssues flag combinations: causes_signature_verify_to_fail <=> intersection with {WrongSig, Expired, Disabled, '
         'Invalid, NoSelfSignature} non-empty, monotone under adding flags; a SignatureVerification holding every value is truthy iff no entry '
         'fails and good/bad partition the entries. (b) full product: 6 keys (RSA 1024/2048, DSA 1024/2048, ECDSA P-256, Ed25519 = weak/strong '
-        'per family) x expired/valid x revoked/not x 3 hashes (SHA-256, SHA-1, MD5) x 5 subject kinds (detached document, own user id, third-'
+        'per family) x expired/valid x revoked/not; histories on one key object (verify, merge a newer self-signature that flips the expiry state, verify again, compare with a fresh load); x 3 hashes (SHA-256, SHA-1, MD5) x 5 subject kinds (detached document, own user id, third-'
         'party user id, whole own key = several signatures, message) x {all correct, each single signature wrong}. Non-trivial: scenario with an '
         'expired key or a wrong signature or >= 2 signatures; distinct by the scenario tuple. The domain is finite and enumerated completely.')
 ASSUMPTIONS = ['expiry is the only disqualifying key condition reachable through the public API today (self-signature verification is stubbed, '
@@ -211,8 +211,59 @@ def w_pairs(arg):
     return rec
 
 
+def w_histories(arg):
+    """verdicts on ONE key object across a state change: verify, then merge a newer self-signature that makes the key
+    expired (or valid again), then verify again; a freshly loaded copy of the same octets must agree"""
+    import pgpy
+    rec = harness.Rec()
+    for (kid, fam, strength), start_expired, how in itertools.product(KEYS, (False, True), ('uid-or', 'reload-only', 'second-uid')):
+        psec = keypool.ref_secret(kid)
+        ppub = psec.pub
+        case = {'kind': 'hist', 'kid': kid, 'start_expired': start_expired, 'how': how}
+        try:
+            ver = keypool.pgpy_key(build_cert(kid, start_expired, False, 8))
+            body = rsig.sign(psec, 0x00, 8, ('doc', b'history'), keypool.std_hashed(1600000000, ppub.fingerprint), keypool.sp(16, ppub.keyid))
+            sig = pgpy.PGPSignature.from_blob(wire.build_packet(2, body))
+            first = bool(ver.verify(b'history', sig))
+            # a newer self-signature on every user id flips the expiry state
+            pk0 = wire.split_packets(build_cert(kid, start_expired, False, 8))
+            extra = keypool.sp(27, b'\x03') + (b'' if start_expired else keypool.sp(9, wire.u32(86400)))
+            news = []
+            for up in [p for p in pk0 if p.tag == 13]:
+                nb = rsig.sign(psec, 0x13, 8, ('cert', ppub, 'uid', up.body), keypool.std_hashed(ppub.created + 5000, ppub.fingerprint, extra), keypool.sp(16, ppub.keyid))
+                news.append((up.body, nb))
+            if how in ('uid-or', 'second-uid'):
+                order = news if how == 'uid-or' else news[::-1]
+                for ub, nb in order:
+                    u = [x for x in ver.userids if x.userid.encode('utf-8') == ub][0]
+                    u |= pgpy.PGPSignature.from_blob(wire.build_packet(2, nb))
+            else:
+                out = b''
+                for p in pk0:
+                    out += p.raw
+                    if p.tag == 13:
+                        out += wire.build_packet(2, [nb for ub, nb in news if ub == p.body][0])
+                ver = keypool.pgpy_key(out)
+            second = bool(ver.verify(b'history', sig))
+            fresh = bool(keypool.pgpy_key(bytes(ver)).verify(b'history', sig))
+            now_expired = bool(ver.is_expired)
+        except Exception as e:   # noqa
+            rec.finding('history', 'exception/%s/%s' % (how, harness.exc_key(e)), case, repr(e))
+            continue
+        rec.case(('hist', kid, start_expired, how), True, ('history/' + how, 'family/%s-%s' % (fam, strength)),
+                 {'key': kid, 'started_expired': start_expired, 'change_via': how, 'verdicts': [first, second, fresh], 'is_expired_after': now_expired})
+        want_first, want_second = (not start_expired), start_expired
+        if first != want_first:
+            rec.finding('verdict', 'expired-key-verifies' if first else 'valid-rejected/doc', case, 'before the change: %r' % first)
+        if now_expired != (not start_expired):
+            rec.finding('history', 'is_expired-after-change', case, 'is_expired=%r' % now_expired)
+        if second != want_second or fresh != want_second:
+            rec.finding('verdict', 'stale-verdict-after-key-state-change', case, 'same object: %r, freshly loaded: %r, expected %r (is_expired=%r)' % (second, fresh, want_second, now_expired))
+    return rec
+
+
 def run(tier, seed):
-    tasks = [('w_algebra', None), ('w_pairs', None)] + [('w_scenarios', (p, 13)) for p in range(13)]
+    tasks = [('w_algebra', None), ('w_pairs', None), ('w_histories', None)] + [('w_scenarios', (p, 13)) for p in range(13)]
     return harness.pmap('vpgpy.props.c17', 'dispatch', tasks)
 
 
@@ -225,6 +276,9 @@ def replay(case):
     k = case['kind']
     if k in ('alg', 'sv', 'sv1'):
         rec = w_algebra(None)
+    elif k == 'hist':
+        rec = w_histories(None)
+        rec.findings = [f for f in rec.findings if f['case'].get('kid') == case['kid'] and f['case'].get('how') == case['how']]
     elif k == 'pair':
         rec = w_pairs(None)
         rec.findings = [f for f in rec.findings if f['case'].get('fam') == case['fam']]
